@@ -24,6 +24,10 @@ def run(chk):
     # escaped substrings (also inside handlers, also on cache hits)
     c01.run_instance(chk, "params-encoded", ["/a/{x}", "/{x}/{y}", "/a/{x:all}", "/a[/{x}]"], 6, 1, chars=("/", "a", "%", "2", "5"), only=PAR,
                      harness_env={"VERIF_MATCH_ENCODED": "1"})
+    # two routes with the same skeleton and variable names but different regexes, registered for different methods in
+    # both orders: each keeps its own regex
+    c01.run_instance(chk, "params-same-skeleton", ["/a/{x}", "/a/{x:dig}", "/a/{x:ab}", "/a[/{x}]", "/a[/{x:dig}]"], 4, 2, chars=("/", "a", "1", "b"),
+                     method_sets=(("GET",), ("POST",)), req_methods=("GET", "POST"), only=PAR)
     if thorough:
         c01.run_instance(chk, "params-pairs", pool[::2], 5, 2, only=PAR)
     from . import c08
